@@ -46,6 +46,22 @@ DOCUMENTED = {
 }
 
 
+# methods of the gridders (called on instances, so they cannot be proxied): the checks filter their keyword arguments with method_kwargs
+METHODS = {
+    "grid": dict(region=None, shape=None, spacing=None, dims=None, data_names=None, projection=None, coordinates=None, adjust="spacing", pixel_register=False, extra_coords=None),
+    "scatter": dict(region=None, size=300, random_state=0, dims=None, data_names=None, projection=None, extra_coords=None),
+    "profile": dict(dims=None, data_names=None, projection=None, extra_coords=None),
+}
+
+
+def method_kwargs(name, kwargs):
+    """kwargs without the entries equal to the documented default of BaseGridder.<name> (only while ACTIVE)"""
+    if not ACTIVE:
+        return kwargs
+    table = METHODS[name]
+    return {k: v for k, v in kwargs.items() if not (k in table and _same(v, table[k]))}
+
+
 def _same(value, default):
     if default is None or value is None:
         return value is default
